@@ -147,30 +147,34 @@ theorem gen_gaCtor_run (ss : List Slot) (hd : Declared ss) (hn : ss.length < 214
 
 /-! ## crossover(lhs, rhs) -/
 
+/-- evaluates generated integer expressions at their machine types: unfolds `evalM`, then removes every `wrap` whose
+    argument is in range (robust against re-association / operand order of the source expression) -/
+macro "meval" : tactic =>
+  `(tactic| (simp only [evalM, binZ, envOf, List.getD_cons_zero, List.getD_cons_succ, List.getD_nil]
+             repeat (rw [wrap_of_in _ _ (by simp only [In, Ty.lo, Ty.hi]; omega)])))
+
 theorem gen_cut1 (n u1 u2 : Nat) (hn : 2 ≤ n) (hN : n < 9223372036854775808) :
     Gen.gaXo.cut1.eval Gen.randIdx [(n : Int)] u1 = ((cuts n u1 u2).1 : Int) := by
   simp only [Gen.gaXo, Draw.eval]
-  rw [safe_sound _ _ (by safe_tac)]
-  simp only [evalZ, binZ, envOf, List.getD_cons_zero]
+  meval
   rw [gen_sup_idx _ _ (by omega) (by omega)]
   simp only [cuts]
   rw [Int.natCast_emod]
-  have : ((n - 1 : Nat) : Int) = (n : Int) - 1 := by omega
-  rw [this]
+  congr 1
+  omega
 
 theorem gen_cut2 (n u1 u2 : Nat) (hn : 2 ≤ n) (hN : n < 9223372036854775808) :
     Gen.gaXo.cut2.eval Gen.randIdx [(n : Int), ((cuts n u1 u2).1 : Int)] u2 = ((cuts n u1 u2).2 : Int) := by
   have hs := cuts_spec n u1 u2 hn
   simp only [Gen.gaXo, Draw.eval]
-  rw [safe_sound _ (.bin .add .u64 (.var 1) (.lit 1)) (by safe_tac)]
-  simp only [evalZ, evalM, binZ, envOf, List.getD_cons_zero, List.getD_cons_succ]
-  rw [gen_between_idx _ _ _ (by omega) (by omega) (by omega)]
   simp only [cuts] at hs ⊢
   generalize u1 % (n - 1) = c1 at hs ⊢
+  meval
+  rw [gen_between_idx _ _ _ (by omega) (by omega) (by omega)]
   rw [Int.natCast_add, Int.natCast_add, Int.natCast_emod]
   have : ((n - (c1 + 1) : Nat) : Int) = (n : Int) - ((c1 : Int) + 1) := by omega
   rw [this]
-  simp
+  congr 1 <;> (try congr 1) <;> omega
 
 theorem age_older_nat (a b : Nat) (ha : a < 4294967296) (hb : b < 4294967296) :
     (Gen.age.older (a : Int) (Gen.age.read (b : Int))).toNat = olderAge a b := by
